@@ -19,17 +19,34 @@ ANCHORS = [
     ("pipefunc/map/_shapes.py", ["map_shapes", "internal_shape_from_mask", "external_shape_from_mask"]),
     ("pipefunc/map/_run_info.py", ["RunInfo.create", "RunInfo.init_store", "_construct_internal_shapes", "_init_arrays"]),
     ("pipefunc/map/_storage_array/_base.py", ["select_by_mask", "iterate_shape_indices"]),
-    ("pipefunc/map/_mapspec.py", ["MapSpec.input_keys", "MapSpec.output_key", "MapSpec.shape", "_shape_to_key"]),
+    ("pipefunc/map/_mapspec.py", ["MapSpec.input_keys", "MapSpec.output_key", "MapSpec.shape", "_shape_to_key",
+                                  "validate_consistent_axes", "mapspec_dimensions"]),
+    ("pipefunc/_pipeline/_mapspec.py", ["find_non_root_axes", "replace_none_in_axes", "create_missing_mapspecs"]),
+    ("pipefunc/_pipeline/_base.py", ["Pipeline.add", "Pipeline._validate_mapspec", "Pipeline._autogen_mapspec_axes",
+                                     "Pipeline.defaults"]),
+    ("pipefunc/map/_prepare.py", ["_validate_complete_inputs"]),
+    ("pipefunc/map/_run_info.py", ["_check_inputs"]),
 ]
-RULE = ("random valid map requests: DAGs of 1..4 structural functions (single/tuple outputs, mapped / unmapped / "
+RULE = ("(1) random valid explicit map requests: DAGs of 1..4 structural functions (single/tuple outputs, mapped / unmapped / "
         "'... -> v[j]' generators), arrays of rank<=3 with axis sizes 1..3, zip / outer product / ':' reductions / "
-        "internal axes at any position, list vs ndarray inputs, bound and default scalars, each storage backend, "
-        "parallel=False; non-trivial = some function with >=2 output axes or a ':' axis or an internal axis; distinct by "
-        "(specs, shapes, storage)")
+        "internal axes at any position, mapped functions with ZERO mapped axes (x[:] -> y[j]), list vs ndarray inputs, "
+        "bound and default scalars, each storage backend, parallel=False; "
+        "(2) USER-LEVEL lists: the same requests with the MapSpec of generator functions removed (incl. tuple-output "
+        "producers and consumers with ':' axes), handed to Pipeline([...]) in a random order - the model constructs the "
+        "pipeline itself and must report the same MapSpecs (structured and as strings) and results; 20% with a "
+        "conflicting consumer (renamed axis / other rank); "
+        "(3) input variants: missing / surplus input, input for a bound parameter, 2-d input as nested lists "
+        "(ValueError before anything runs), input supplied for a defaulted parameter (the input wins); "
+        "non-trivial = some function with >=2 output axes or a ':' axis or an internal axis; distinct by "
+        "(kind, specs, order, shapes, storage)")
 ASSUMPTIONS = ["sequential semantics (parallel=False); executors/schedules are C03",
                "user functions are deterministic and return arrays of the declared internal shape",
-               "MapSpecs are written explicitly (auto-generated specs for unannotated producers are not modelled)"]
-TRUSTED = ["Model/MapRun.v mirrors pipefunc/map/_run.py (sequential path) by hand; storage modelled as the abstract masked array of C07",
+               "construction: only the MapSpec side of Pipeline.add/_validate is modelled (scopes, consistent defaults, "
+               "cycle detection, type annotations: C12/C16)"]
+TRUSTED = ["Model/MapRun.v mirrors pipefunc/map/_run.py (sequential path) by hand; storage modelled as the abstract masked array of C07 "
+           "(tied to the FileArray/DictArray models by Proofs/MapStoreLink.v)",
+           "Model/AutoGen.v mirrors Pipeline.add/_validate_mapspec/_autogen_mapspec_axes and pipefunc/_pipeline/_mapspec.py by hand",
+           "Model/MapPrepare.v mirrors _validate_complete_inputs/_check_inputs by hand",
            "harness/mapsym.py structural user functions and canonicalisation of arrays"]
 
 
